@@ -173,6 +173,10 @@ pub struct MuxScenario {
     /// overwritten in place); 0 = empty sink
     #[serde(default)]
     pub preexisting: u64,
+    /// one transient hard fault of the sink while muxing: (stream-call sequence number, fault).
+    /// The call it hits must fail as a whole (a rejected call leaves no trace); later calls work.
+    #[serde(default)]
+    pub fault: Option<(u64, crate::simdisk::Fault)>,
 }
 
 // -------------------------------------------------------------------------------------------
@@ -683,12 +687,26 @@ pub fn gen_mux(r: &mut Rng, o: &GenOpts) -> MuxScenario {
         3 => (r.below(5000), r.below(300_000)),
         _ => (0, 0),
     };
+    // transient sink fault (valid-domain histories only; C17 plants its own)
+    let fault = if !o.hostile && r.chance(1, 10) {
+        let seq = r.below(3 * ops.len() as u64 + 16);
+        let f = match r.below(4) {
+            0 => crate::simdisk::Fault::Zero,
+            1 => crate::simdisk::Fault::Err(crate::simdisk::ErrK::StorageFull),
+            2 => crate::simdisk::Fault::Err(crate::simdisk::ErrK::Other),
+            _ => crate::simdisk::Fault::Err(crate::simdisk::ErrK::TimedOut),
+        };
+        Some((seq, f))
+    } else {
+        None
+    };
     let mut sc = MuxScenario {
         cfg,
         ops,
         start_pos,
         io,
         preexisting,
+        fault,
     };
     if !o.hostile {
         fit_durations(&mut sc);
